@@ -172,6 +172,8 @@ class Shadow:
     # ---- ops
     def gen_op(self):
         rng, cfg = self.rng, self.cfg
+        if cfg.get('duppvd') and rng.random() < 0.04:
+            return {'op': 'duppvd'}, None
         r = rng.random()
         limit = 7 if (not cfg.get('rr') and cfg['ilevel'] < 4) else 9
         if r < 0.36:
